@@ -45,6 +45,7 @@ func getProfile(name string, seed int64) *Profile {
 		p.Invalid = 0.3
 		p.W = weights(map[string]int{"CreateIndex": 14, "DropIndex": 10, "HasIndex": 6, "ListIndexes": 6, "FindAll": 14, "Derived": 4})
 		p.SortHeavy = true
+		p.IdxPool = []string{"x", "xy", "n", "n.a", "x", "xy", "s", "x.y"}
 	case "extremes": // integer extremes, no indexes (C01 C08 C10 over the extremes table)
 		p.NumTable = "extremes"
 		p.Indexes = false
